@@ -43,6 +43,9 @@ class RefVal:
     srt: frozenset | None = None
     psort: bool = False
     eng: str = "e1"
+    # an ORDER BY whose order is no longer defined (DISTINCT over a projection that dropped a sort key) may
+    # still sit in the outermost query: burying it is not required to fail, but the engine MAY refuse
+    osort: bool = False
     # sub-bag rule: when ``amb``, every legal result is a sub-bag of ``base`` (the per-row operations and
     # deduplications applied since the ambiguous slice, applied to that slice's WHOLE input); None = no claim
     base: tuple | None = None
@@ -56,6 +59,7 @@ class RefVal:
             self.cdet,
             None if self.srt is None else tuple(sorted(self.srt)),
             self.psort,
+            self.osort,
             self.eng,
             None if self.base is None else tuple(tuple(sorted(r.items())) for r in self.base),
         )
@@ -123,6 +127,12 @@ def _restriction_error(expr, kind):
     return want != kind and want not in _ALSO_ALLOWED
 
 
+def _sort_still_expressible(val: RefVal, cols) -> bool:
+    """A pending (unsliced) sort can be carried to the outermost query level as long as every column it
+    reads is still visible; a selection/calculation that needs a subquery must then keep it there (C11)."""
+    return val.srt is not None and val.srt <= frozenset(cols)
+
+
 def ref_apply(
     val: RefVal, op, scen: Scenario, marker_has_sort: bool | None = None, observed_engine: str | None = None
 ) -> RefVal:
@@ -171,7 +181,7 @@ def ref_apply(
         if errs:
             raise RefReject(errs, f"calc {t}")
         det = val.det and (not sql or bool(marker_has_sort))
-        ps = val.psort and bool(marker_has_sort)
+        ps = val.psort and (bool(marker_has_sort) or _sort_still_expressible(val, cols | {t}))
         base = None if val.base is None else tuple({**r, t: A.ref_eval(e, r)} for r in val.base)
         return rep(
             val, rows=tuple({**r, t: A.ref_eval(e, r)} for r in rows), cols=cols | {t}, det=det, psort=ps, base=base
@@ -198,7 +208,7 @@ def ref_apply(
         if errs:
             raise RefReject(errs, "sel")
         det = val.det and (not sql or bool(marker_has_sort))
-        ps = val.psort and bool(marker_has_sort)
+        ps = val.psort and (bool(marker_has_sort) or _sort_still_expressible(val, cols))
         out = tuple(r for r in rows if A.ref_eval(p, r))
         base = None if val.base is None else tuple(r for r in val.base if A.ref_eval(p, r))
         return rep(val, rows=out, det=det, psort=ps, cdet=val.cdet and not val.amb, base=base)
@@ -206,8 +216,19 @@ def ref_apply(
         if not sql and fd_violated(rows, cols):
             raise RefOOC("dedup on rows violating the is_key functional dependency")
         det = val.det and (not sql or val.srt is None or val.srt <= cols)
+        # DISTINCT over a projection that dropped a sort key leaves no defined order: from here on there is
+        # no sort left that a join/chain/materialization could drop (the engine may still refuse)
+        ps = val.psort and _sort_still_expressible(val, cols)
         base = None if val.base is None else tuple(first_occurrence_dedup(val.base))
-        return rep(val, rows=tuple(first_occurrence_dedup(rows)), det=det, cdet=val.cdet and not val.amb, base=base)
+        return rep(
+            val,
+            rows=tuple(first_occurrence_dedup(rows)),
+            det=det,
+            psort=ps,
+            osort=val.osort or (val.psort and not ps),
+            cdet=val.cdet and not val.amb,
+            base=base,
+        )
     if k == "sort":
         terms = op[1]
         if not terms:
@@ -226,7 +247,7 @@ def ref_apply(
         else:
             det = (val.det or total) and not val.amb
         srt = need if val.srt is None else (val.srt | need)
-        return rep(val, rows=tuple(out), det=det, srt=srt, psort=sql)
+        return rep(val, rows=tuple(out), det=det, srt=srt, psort=sql, osort=False)
     if k == "rawslice":
         _, start, stop, step = op
         if step not in (None, 1) or (start is not None and start < 0) or (stop is not None and stop < (start or 0)):
@@ -248,7 +269,7 @@ def ref_apply(
             if not (whole or empty):
                 amb = True
                 base = rows  # whichever rows the engine picks, they come from here
-        return rep(val, rows=tuple(out), amb=amb, psort=False, base=base)
+        return rep(val, rows=tuple(out), amb=amb, psort=False, osort=False, base=base)
     if k == "chain":
         other = scen_operand(val, op[1], scen)
         errs = set()
@@ -258,6 +279,8 @@ def ref_apply(
             errs.add("ColumnError")
         if sql and (val.psort or other.psort):
             errs.add("RelationalAlgebraError")
+        if errs and sql and (val.osort or other.osort):
+            errs.add("RelationalAlgebraError")  # permitted, not required
         if errs:
             raise RefReject(errs, "chain")
         rev = len(op) > 2 and op[2]
@@ -286,8 +309,11 @@ def ref_apply(
                 errs.add("EngineError")
         if sql and (val.psort or other.psort):
             errs.add("RelationalAlgebraError")
+        may_refuse = sql and (val.osort or other.osort)
         if fixed_common is not None and not (set(fixed_common) <= lhs.cols and set(fixed_common) <= rhs.cols):
             errs.add("ColumnError")  # explicitly requested common columns missing from an operand
+        if errs and may_refuse:
+            errs.add("RelationalAlgebraError")  # permitted, not required
         if errs:
             raise RefReject(errs, "join")
         common = sorted(c for c in lhs.cols & rhs.cols if A.is_key(c))
@@ -318,15 +344,15 @@ def ref_apply(
     if k == "mat":
         if sql and val.psort:
             raise RefReject({"RelationalAlgebraError"}, "materialize under pending sort")
-        return rep(val, psort=False) if sql else val
+        return rep(val, psort=False, osort=False) if sql else val
     if k == "xfer":
         dest = op[1]
         if dest == val.eng:
             return val
         dkind = scen.kind(dest)
         if dkind == "sql":
-            return rep(val, eng=dest, det=False, srt=None, psort=False)
-        return rep(val, eng=dest, srt=None, psort=False)
+            return rep(val, eng=dest, det=False, srt=None, psort=False, osort=False)
+        return rep(val, eng=dest, srt=None, psort=False, osort=False)
     raise AssertionError(op)
 
 
